@@ -145,7 +145,7 @@ type VerifCell struct {
 // VerifModes are the modes of a snapshot
 type VerifModes struct {
 	IRM, LNM, DECCKM, DECOM, DECAWM, DECTCEM, DECKPAM, SMCUP, Paste bool
-	MouseButtons, MouseDrag, MouseMotion, MouseSGR, AltScroll        bool
+	MouseButtons, MouseDrag, MouseMotion, MouseSGR, AltScroll       bool
 }
 
 // VerifSnap is a read-only copy of the emulator state
